@@ -57,7 +57,8 @@ STUBBED = ["socket (scripted outcomes), select, pinger, time, threading "
 EXPECT_PROBES = ["side_ctl", "side_sw", "tx_script_part", "tx_script_eagain",
                  "tx_script_fatal", "deferred_used", "send_fast_used",
                  "side_swt", "send_while_flushing",
-                 "exceptional_with_backlog"]
+                 "exceptional_with_backlog",
+                 "send_from_connection_down_handler"]
 
 
 def _script(r, n, fatal_ok=True):
@@ -100,6 +101,7 @@ def gen_plan(seed, tier):
                 "pct_depth": r.randint(1, 3), "step_cap": 400000})
     cfg["scripts"] = [_script(r, r.randint(0, 8), fatal_ok=r.chance(0.3))
                       for _ in range(cfg["ncon"])]
+    cfg["down_handler_sends"] = Rng(mix(seed, "dhs")).chance(0.5)
     for i in range(r.randint(2, 10)):
       steps.append({"con": r.randrange(cfg["ncon"]),
                     # (4096 = the deferred sender's slice size: exact
@@ -432,6 +434,19 @@ def _drive_ctl(sim, plan, known, hit):
       for _ in range(3):
         eng.preempt()
     sim.probes["slow_down_handler_ran"] += 1
+    if cfg.get("down_handler_sends") and len(peers) == 2:
+      # ... and tells the neighbour switch about it: a send on the other
+      # connection, from whichever thread noticed the loss (possibly the
+      # deferred sender's own, in the middle of its flush round)
+      # (connection 1 is written by this handler only: one writer per
+      # connection, as everywhere in this check)
+      oi = [1] if event.connection is peers[0].con else []
+      if len(oi) == 1 and peers[oi[0]].con is not None \
+          and not peers[oi[0]].con.disconnected:
+        data = _payload(900 + oi[0], 24)
+        queued[oi[0]] += data
+        sim.probes["send_from_connection_down_handler"] += 1
+        peers[oi[0]].con.send(data)
   world.nexus.addListenerByName("ConnectionDown", slow_down_handler,
                                 priority=100)
 
@@ -441,6 +456,8 @@ def _drive_ctl(sim, plan, known, hit):
         yield 0.01
       for i, st in enumerate(plan["steps"]):
         ci = st["con"] % ncon
+        if cfg.get("down_handler_sends"):
+          ci = 0
         con = peers[ci].con
         data = _payload(i, st["n"])
         if not con.disconnected:
